@@ -141,6 +141,9 @@ def e2e_part(spec, part):
             v2 = arm_ >= 14 and dsp_ >= {"ESU": 22, "ESA": 22, "EMU": 11, "EMJ": 11, "BPS": 10, "BPU": 10}.get(es_tag, 10 ** 6)
         # prior contents of the four groups
         prior_cls = rnd.choice(("fulltime-on", "typed", "typed", "garbage", "off", "typed-on", "typed-bad-tail", "fulltime-off"))
+        directed_off = it < 5       # the first runs of every shard: switched-off all-day group of each firmware's 'off' value, ECO selected first
+        if directed_off:
+            prior_cls = "fulltime-off"
         bases = (47547, 47553, 47559, 47565) if v2 else ((47515, 47519, 47523, 47527) if fam == "ET" else (1793, 1797, 1801, 1805))
         for gi, base in enumerate(bases):
             if v2:
@@ -153,7 +156,9 @@ def e2e_part(spec, part):
                     part.count("prior_group_typed_with_undecodable_tail")
                 elif prior_cls == "fulltime-off" and gi == 0:
                     # the all-day / all-week pattern, but switched OFF - with each of the 'off' values the firmware generations use
-                    b = prior_v2(rnd, rnd.choice((0, 6, 85, 1, 3)), True)
+                    b = prior_v2(rnd, rnd.choice((0, 6, 85, 1, 3)) if not directed_off else (6, 85, 1, 3, 0)[it], True)
+                    if directed_off:
+                        b = b[:10] + (0x0FFF if it % 2 else 0).to_bytes(2, "big")
                     part.count("prior_group_fulltime_but_off")
                 elif prior_cls == "off":
                     b = prior_v2(rnd, rnd.choice((0, 6, 85)))
@@ -187,6 +192,9 @@ def e2e_part(spec, part):
             await inv.read_device_info()
             modes = list(await inv.get_operation_modes(True))
             rnd.shuffle(modes)
+            if directed_off and OM.ECO in modes:
+                modes.remove(OM.ECO)
+                modes.insert(0, OM.ECO)
             # a monitoring task that keeps reading group 1 and the runtime data WHILE the setters run (an integration polling in the background)
             bg = {"stop": False, "task": None}
             if rnd.random() < 0.3:
